@@ -75,6 +75,7 @@ var svNames = [...]string{"plain", "force-verify", "force-verify+reset"}
 // crashNode is the node under test in E4.
 type crashNode struct {
 	w    *world
+	twin bool
 	path string
 	db   *dbutil.DB
 	v    *visor.Visor
@@ -97,7 +98,16 @@ func (n *crashNode) startup(variant int) (err error) {
 			err = fmt.Errorf("the node dies during start-up: %v", r)
 		}
 	}()
-	db, err := visor.OpenDB(n.path, false) // the node's own way of opening (and creating) the database file
+	// The node under test opens (and creates) the file the node's own way.  The never-crashed twin, whose file
+	// images the crash states are cut from, keeps the harness's opener: with bolt's default initial mapping the
+	// page a commit picks for its freelist varies from process to process (seen in the determinism self-test),
+	// and a replay file must lead to the same images.
+	var db *dbutil.DB
+	if n.twin {
+		db, err = openBolt(n.path)
+	} else {
+		db, err = visor.OpenDB(n.path, false)
+	}
 	if err != nil {
 		return fmt.Errorf("open: %w", err)
 	}
@@ -328,7 +338,7 @@ func runCrash(c *sim.Ctx) {
 	c.Sample = append(c.Sample, fmt.Sprintf("script: %d ops, %d blocks", len(script), nb))
 
 	// ---- the twin that never crashes, with an image after every commit ----
-	twin := &crashNode{w: w, path: filepath.Join(c.Dir, "twin.db"), cfg: w.visorConfig(false)}
+	twin := &crashNode{w: w, twin: true, path: filepath.Join(c.Dir, "twin.db"), cfg: w.visorConfig(false)}
 	var images []image
 	curOp := 0
 	record := func(name string) {
@@ -340,6 +350,14 @@ func runCrash(c *sim.Ctx) {
 			return
 		}
 		images = append(images, image{op: curOp, name: name, data: data})
+		if os.Getenv("VERIF_LOG_DIR") != "" {
+			var ps []string
+			for p := 0; p*pageSize < len(data); p++ {
+				sum := sha256.Sum256(data[p*pageSize : min(len(data), (p+1)*pageSize)])
+				ps = append(ps, fmt.Sprintf("%x", sum[:3]))
+			}
+			c.Logf("image %d (%s) pages %v", len(images)-1, name, ps)
+		}
 	}
 	dbutil.VerifAfterUpdate = func(db *dbutil.DB, name string, err error) {
 		if err == nil && db.Path() == twin.path {
